@@ -17,11 +17,12 @@ RULE = ('A generated ledger (G1); read sweep: spacing_before / spacing_after / r
         'whitespace/newline tokens), plus the metamorphic relation left.spacing_after == right.spacing_before for neighbours separated only by one '
         'run; write programs of 1-6 assignments (model or token chosen by selector, both sides, strings over {space, tab, LF, CRLF} of length 0-6): '
         'the printed file must equal the old text with exactly the old run\'s character range replaced, the non-blank characters and their order '
-        'are unchanged, a non-empty assignment reads back as assigned, and all tokens outside the run keep identity. Non-trivial = a zero-width token '
+        'are unchanged, a non-empty assignment reads back as assigned, and all tokens outside the run keep identity; a second job interleaves '
+        'the assignments with value / slot / list / copy / arithmetic edits and keeps accessing what those edits created or moved. Non-trivial = a zero-width token '
         'is adjacent on the accessed side, or the run contains a newline, or the neighbour is an indent or a comment.')
 ASSUMPTIONS = ['read-back after assigning the empty string is not asserted (the accessor then legitimately sees the next run)', 'strings with a bare CR are not assigned']
 SHRINK_LISTS = ('ops', 'dirs')
-REQUIRED_CLASSES = ('lf:4', 'read-sweep', 'write:before', 'write:after', 'zero-width-adjacent', 'run-with-newline', 'target:token', 'target:model')
+REQUIRED_CLASSES = ('after-edit', 'lf:4', 'read-sweep', 'write:before', 'write:after', 'zero-width-adjacent', 'run-with-newline', 'target:token', 'target:model')
 WS = (O.Whitespace, O.Newline)
 
 
@@ -121,11 +122,17 @@ def _run(case: dict) -> Result:
     for op in case.get('ops', []):
         if res.violations:
             break
-        if op.get('f') != 'space':
-            continue
         try:
             a = OPS.resolve(root, op)
         except OPS.NotApplicable:
+            continue
+        if op.get('f') != 'space':
+            # edit history before the spacing accesses: the accessors are defined on the document as it is now, whichever way it got there
+            try:
+                a.run()
+                classes.add('after-edit')
+            except Exception:  # noqa: BLE001 - the edits themselves are other properties' subject
+                pass
             continue
         m = a.P
         side = op['side']
@@ -211,5 +218,26 @@ def _build(tier: str):
     return build
 
 
+def _build_edited(tier: str):
+    """Spacing accesses on models and tokens that earlier edits created or moved (value assignments, slot and list edits, copies, constructed
+    donors); the generator keeps working on what the edits inserted."""
+    cfg = L.Cfg(max_dirs=3 if tier == 'quick' else 6)
+    fams = ['val', 'val', 'opt', 'req', 'list', 'copyins', 'arith', 'space', 'space', 'space', 'space']
+
+    def build(rnd: Any) -> dict:
+        g = L.G(rnd, cfg)
+        claim = g.p(0.7)
+        case = OPS.build_program(rnd, cfg, fams, 8, lambda t: common.parse_file(t, claim), stick=0.5)
+        for op in case['ops']:
+            if op.get('f') == 'space' and g.p(0.5):
+                op['text'] = ''.join(g.pick([' ', ' ', '\t', '\n', '\r\n']) for _ in range(g.n(0, 6)))
+        case['claim'] = claim
+        case['sweep'] = False
+        case['lf'] = 1000
+        return case
+    return build
+
+
 def jobs(tier: str) -> list[Job]:
-    return [Job('spacing', 'hyp', lambda: _build(tier), 2500 if tier == 'quick' else 80000)]
+    return [Job('spacing', 'hyp', lambda: _build(tier), 2500 if tier == 'quick' else 80000),
+            Job('spacing-after-edits', 'hyp', lambda: _build_edited(tier), 2500 if tier == 'quick' else 80000)]
